@@ -58,10 +58,11 @@ def msg_full(job):
     try:
         r = m.validate(return_errors=True)
         val = 'ok %d %d' % (len(r[1]), len(r[2])) if isinstance(r, tuple) else 'ok?'
+        errs = [str(e)[:200] for e in r[1]] if isinstance(r, tuple) else []
     except Exception as e:  # noqa
         val = 'exc ' + vlib.exc_name(e)
     info = {'has_reference': hasattr(m, 'reference'), 'name': m.name,
-            'msh': [c.name for c in m.children].count('MSH')}
+            'msh': [c.name for c in m.children].count('MSH'), 'errors': locals().get('errs', [])}
     return (enc, val, info)
 
 
